@@ -31,6 +31,24 @@ pub open spec fn rec_of(e: (String, (u64, Vec<u8>))) -> Rec { Rec { key: str_byt
 pub open spec fn recs_of(m: Mutations) -> Seq<Rec> { m.0@.map_values(|e: (String, (u64, Vec<u8>))| rec_of(e)) }
 
 // ------------------------------------------------------------------ code side: vls-core
+impl Mutations {
+//@fn vls-core/src/persist/mod.rs :: impl Mutations :: new props=C17
+    ensures r.0@.len() == 0,
+//@end
+//@fn vls-core/src/persist/mod.rs :: impl Mutations :: add props=C17
+    ensures final(self).0@ == old(self).0@.push((key, (version, value))),
+//@end
+//@fn vls-core/src/persist/mod.rs :: impl Mutations :: inner props=C17
+    ensures *r == self.0,
+//@end
+//@fn vls-core/src/persist/mod.rs :: impl Mutations :: is_empty props=C17
+    ensures r == (self.0@.len() == 0),
+//@end
+//@fn vls-core/src/persist/mod.rs :: impl Mutations :: len props=C17
+    ensures r == self.0@.len(),
+//@end
+}
+
 //@fn vls-core/src/persist/mod.rs :: - :: add_to_hmac props=C17
     ensures
         final(hmac).key() == old(hmac).key(),
